@@ -22,7 +22,7 @@ THEOREMS = [P + t for t in (
     'spaceship_float_ordering_ill_formed',
     'spaceship_agrees_with_operators_full_false', 'spaceship_agrees_with_operators_partial',
     # value_or / in_range / required
-    'value_or_full_false', 'value_or_spec_partial', 'in_range_spec',
+    'value_or_spec_full_false', 'value_or_spec_partial', 'in_range_spec',
     'required_cmp_rules', 'required_spaceship_agrees',
     # default tables (whole extracted tables)
     'tables_extracted', 'tables_shape', 'builtin_types_ok', 'parsed_form_agrees',
@@ -588,6 +588,9 @@ def replay(chk, rep):
             p = kv(l)['p']
             if not same_value(p, int(ik.get('impl', '0'), 16), int(mk['spec'], 16)):
                 bad += 1
+        elif 'spec' not in mk:
+            print('  (the model driver does not answer this request)')
+            bad += 1
         elif ik.get('impl') != mk.get('spec'):
             bad += 1
     return 1 if bad else 0
